@@ -189,6 +189,31 @@ func flipVariant(g *RNG, o *ObjSpec) *ObjSpec {
 	return nil
 }
 
+// tweakVariant rewrites the value of one single-byte INTEGER / ENUMERATED /
+// BOOLEAN of the DER (version numbers, reason codes, path lengths, flags):
+// small, structure-preserving hostility. Kept only if the real parser accepts it.
+func tweakVariant(g *RNG, o *ObjSpec) *ObjSpec {
+	var cand []int
+	for i := 0; i+2 < len(o.DER); i++ {
+		if (o.DER[i] == 0x0a || o.DER[i] == 0x02 || o.DER[i] == 0x01) && o.DER[i+1] == 0x01 {
+			cand = append(cand, i+2)
+		}
+	}
+	for tries := 0; tries < 8 && len(cand) > 0; tries++ {
+		pos := pick(g, cand)
+		v := pick(g, []byte{0, 1, 2, 3, 7, 8, 10, 11, 12, 0x7f, 0x80, 0xff, byte(g.Intn(256))})
+		if o.DER[pos] == v {
+			continue
+		}
+		d := append([]byte(nil), o.DER...)
+		d[pos] = v
+		if _, err := parseObj(o.Kind, d); err == nil {
+			return &ObjSpec{ID: fmt.Sprintf("%s#tweak(%d=%02x)", o.ID, pos, v), Kind: o.Kind, DER: d}
+		}
+	}
+	return nil
+}
+
 // objectDate returns the date the framework compares with a lint's window.
 func objectDate(p *Parsed) time.Time {
 	switch p.Kind {
